@@ -38,8 +38,16 @@ type c17Case struct {
 	Root     string     `json:"root"`   // "./" | "/" | "top/"
 	RootPerm uint32     `json:"root_perm"`
 	Tree     []c17Entry `json:"tree"`
-	New      []string   `json:"new"`              // files added through the filesystem afterwards
-	Writer   string     `json:"writer,omitempty"` // "" = archive/tar, "gnutar" = /usr/bin/tar over a materialised tree
+	New      []string   `json:"new"`                // files added through the filesystem afterwards
+	Writer   string     `json:"writer,omitempty"`   // "" = archive/tar, "gnutar" = /usr/bin/tar over a materialised tree
+	Blocking int        `json:"blocking,omitempty"` // gnutar: blocking factor (-b); archive/tar: zero blocks appended behind the trailer
+	Modify   []c17Mod   `json:"modify,omitempty"`   // calls on members after opening
+}
+
+type c17Mod struct {
+	Kind string `json:"kind"` // chmod | chtimes | rename | remove
+	Idx  int    `json:"idx"`
+	Perm uint32 `json:"perm,omitempty"`
 }
 
 // c17GnuTar materialises the tree and lets /usr/bin/tar write the archive.
@@ -71,6 +79,9 @@ func c17GnuTar(c c17Case) ([]byte, error) {
 	_ = os.Chtimes(top, time.Unix(1600000000, 0), time.Unix(1600000000, 0))
 	out := filepath.Join(base, "out.tar")
 	args := []string{"--format=" + map[string]string{"ustar": "ustar", "pax": "posix", "gnu": "gnu"}[c.Format], "--no-recursion", "-cf", out}
+	if c.Blocking > 0 {
+		args = append([]string{"-b", fmt.Sprint(c.Blocking)}, args...)
+	}
 	names := []string{}
 	if c.Root == "./" {
 		args = append(args, "-C", top)
@@ -185,6 +196,9 @@ func c17Open(f failer, cfg world.Cfg, dir, drv, db string) (*world.World, observ
 	return w, linkFs{fsys}
 }
 
+// extraDirs: directories added through the filesystem (set by c17Run).
+var c17ExtraDirs = map[string]bool{}
+
 func c17Compare(c c17Case, snap *observe.Snap, extra map[string][]byte) string {
 	want := map[string]c17Entry{}
 	for _, e := range c.Tree {
@@ -197,6 +211,12 @@ func c17Compare(c c17Case, snap *observe.Snap, extra map[string][]byte) string {
 			continue
 		}
 		seen[en.Path] = true
+		if c17ExtraDirs[en.Path] {
+			if en.Kind != "dir" {
+				out = append(out, fmt.Sprintf("added directory %s shows as %s", en.Path, en.Kind))
+			}
+			continue
+		}
 		if data, ok := extra[en.Path]; ok {
 			if !bytes.Equal(en.Content, data) {
 				out = append(out, fmt.Sprintf("added file %s reads %d bytes, %d were written", en.Path, len(en.Content), len(data)))
@@ -244,6 +264,11 @@ func c17Compare(c c17Case, snap *observe.Snap, extra map[string][]byte) string {
 			out = append(out, fmt.Sprintf("added file %s is not listed", p))
 		}
 	}
+	for p := range c17ExtraDirs {
+		if !seen[p] {
+			out = append(out, fmt.Sprintf("added directory %s is not listed", p))
+		}
+	}
 	for _, e := range snap.Errs {
 		out = append(out, "walk: "+e)
 	}
@@ -256,6 +281,7 @@ func c17Compare(c c17Case, snap *observe.Snap, extra map[string][]byte) string {
 
 func c17Run(f failer, cfg world.Cfg, c c17Case) {
 	live.J.Begin(hist.Case{Property: "C17", Cfg: cfg, Params: hist.Params{"c17": c}, Steps: []hist.Step{}})
+	c17ExtraDirs = map[string]bool{}
 	var raw []byte
 	var err error
 	if c.Writer == "gnutar" {
@@ -266,6 +292,9 @@ func c17Run(f failer, cfg world.Cfg, c c17Case) {
 		}
 	} else {
 		raw, err = c17Write(c)
+		if err == nil && c.Blocking > 0 {
+			raw = append(raw, make([]byte, 512*c.Blocking)...) // zero blocks as a blocking writer leaves them
+		}
 	}
 	if err != nil {
 		// not encodable by a standard writer at all: not in the domain
@@ -321,6 +350,17 @@ func c17Run(f failer, cfg world.Cfg, c c17Case) {
 	for i, p := range c.New {
 		var h afero.File
 		var err error
+		if i == 0 && len(c.New) > 1 {
+			// the first addition is a directory: a single record that is never updated afterwards
+			checkObs(f, hist.Call("Mkdir "+p, func() { err = fsys.Mkdir(p+"-dir", 0755) }), "mkdir")
+			if err != nil {
+				failf(f, "creating the directory %s-dir in the opened archive failed: %v", p, err)
+			}
+			c17ExtraDirs[observe.Clean(p+"-dir")] = true
+			if msg := positionsAreMemberStarts(w, cfg); msg != "" {
+				failf(f, "after Mkdir(%q) in the opened archive: %s", p+"-dir", msg)
+			}
+		}
 		checkObs(f, hist.Call("Create "+p, func() { h, err = fsys.Create(p) }), "create")
 		if err != nil {
 			failf(f, "creating %s in the opened archive failed: %v", p, err)
@@ -335,11 +375,74 @@ func c17Run(f failer, cfg world.Cfg, c c17Case) {
 			failf(f, "closing %s failed: %v", p, err)
 		}
 		extra[observe.Clean(p)] = data
+		if msg := positionsAreMemberStarts(w, cfg); msg != "" {
+			failf(f, "after adding %s: %s", p, msg)
+		}
 		snap, e := observe.Snapshot(hist.Call, fsys, true)
 		checkObs(f, e, "snapshot")
 		if d := c17Compare(c, snap, extra); d != "" {
 			failf(f, "after adding %s the filesystem no longer shows members and additions side by side:\n%s", p, d)
 		}
+	}
+	// calls on members of the foreign archive; afterwards the live view and a rebuild must agree
+	if len(c.Modify) > 0 && len(c.Tree) > 0 {
+		var callErrs []string
+		alive := map[string]bool{}
+		for _, e := range c.Tree {
+			alive[e.Path] = true
+		}
+		for _, m := range c.Modify {
+			e := c.Tree[m.Idx%len(c.Tree)]
+			wasAlive := alive[e.Path]
+			var err error
+			checkObs(f, hist.Call(m.Kind+" "+e.Path, func() {
+				switch m.Kind {
+				case "chmod":
+					err = fsys.Chmod(e.Path, os.FileMode(m.Perm))
+				case "chtimes":
+					err = fsys.Chtimes(e.Path, time.Unix(1234567, 0), time.Unix(7654321, 0))
+				case "rename":
+					err = fsys.Rename(e.Path, e.Path+"-renamed")
+				case "remove":
+					err = fsys.RemoveAll(e.Path)
+				}
+			}), m.Kind)
+			callErrs = append(callErrs, fmt.Sprintf("%s %s: %v", m.Kind, e.Path, err))
+			// a member that is still there accepts the call (it may be gone: renamed/removed earlier)
+			if wasAlive && err != nil {
+				failf(f, "%s of the archive member %s failed: %v (calls so far: %v)", m.Kind, e.Path, err, callErrs)
+			}
+			if wasAlive && (m.Kind == "remove" || m.Kind == "rename") {
+				for p := range alive {
+					if p == e.Path || strings.HasPrefix(p, e.Path+"/") {
+						delete(alive, p)
+					}
+				}
+			}
+			live.S.Class("member-call:" + m.Kind)
+		}
+		liveSnap, e := observe.Snapshot(hist.Call, fsys, true)
+		checkObs(f, e, "snapshot")
+		for _, en := range liveSnap.Entries {
+			if en.Kind == "file" && en.ReadErr == "" && en.Size != en.Len {
+				failf(f, "after %v on members of the archive, %s reports size %d but reads %d bytes", c.Modify, en.Path, en.Size, en.Len)
+			}
+		}
+		now, _ := os.ReadFile(drv)
+		d3 := filepath.Join(dir, "rebuilt-after-calls")
+		drv3 := filepath.Join(d3, "drv", "archive.tar")
+		_ = os.MkdirAll(filepath.Dir(drv3), 0700)
+		_ = os.WriteFile(drv3, now, 0600)
+		w3, fs3 := c17Open(f, cfg, d3, drv3, filepath.Join(d3, "index.sqlite"))
+		rebuilt, e := observe.Snapshot(hist.Call, fs3, true)
+		checkObs(f, e, "snapshot of the rebuild")
+		w3.Close()
+		if d := observe.Diff("live", liveSnap, "rebuilt", rebuilt, true); d != "" {
+			failf(f, "after %v on members of the archive an index rebuild shows a different filesystem:\n%s", callErrs, d)
+		}
+		live.S.Case(c.Format+"|"+c.Root, true, live.J.Digest(), func() interface{} { return c })
+		live.S.Flush()
+		return
 	}
 	if len(extra) > 0 {
 		w.Close()
@@ -424,8 +527,20 @@ func TestC17(t *testing.T) {
 				c.Root = "./"
 			}
 		}
+		if rapid.IntRange(0, 2).Draw(t, "blocked") > 0 {
+			c.Blocking = rapid.SampledFrom([]int{1, 2, 3, 5, 20, 21, 22, 23, 24, 45, 46, 47, 64, 70}).Draw(t, "blocking")
+		}
 		for i := 0; i < rapid.IntRange(0, 2).Draw(t, "nnew"); i++ {
-			c.New = append(c.New, path.Join(rapid.SampledFrom(dirs).Draw(t, "newdir"), fmt.Sprintf("added-%d", i)))
+			name := fmt.Sprintf("added-%d", i)
+			if rapid.Bool().Draw(t, "oddname") {
+				name = rapid.SampledFrom(c17Names).Draw(t, "newname") + name
+			}
+			c.New = append(c.New, path.Join(rapid.SampledFrom(dirs).Draw(t, "newdir"), name))
+		}
+		if rapid.IntRange(0, 2).Draw(t, "modify") == 0 {
+			for i := 0; i < rapid.IntRange(1, 3).Draw(t, "nmod"); i++ {
+				c.Modify = append(c.Modify, c17Mod{Kind: rapid.SampledFrom([]string{"chmod", "chtimes", "rename", "remove", "chmod"}).Draw(t, "modkind"), Idx: rapid.IntRange(0, 20).Draw(t, "modidx"), Perm: uint32(rapid.SampledFrom([]int{0600, 0755, 0444}).Draw(t, "modperm"))})
+			}
 		}
 		c17Run(t, cfg, c)
 	})
@@ -437,4 +552,31 @@ func init() {
 		remarshal(c.Params["c17"], &cc)
 		c17Run(t, c.Cfg, cc)
 	}
+}
+
+// positionsAreMemberStarts: C04's basic invariant on whatever tape the instance is over:
+// every row's position and last-known position is the start of a tar member, and the
+// last-indexed position is the final member.
+func positionsAreMemberStarts(w *world.World, cfg world.Cfg) string {
+	raw := w.TapeBytes()
+	sc := observe.TapeScan(raw, cfg.RecordSize, false)
+	if len(sc.Problems) > 0 {
+		return fmt.Sprintf("the tape no longer scans: %v", sc.Problems)
+	}
+	starts := sc.Starts()
+	rows, err := observe.IndexDump(w.DB)
+	if err != nil {
+		return "cannot read the index: " + err.Error()
+	}
+	rs := int64(cfg.RecordSize)
+	for _, r := range rows {
+		pos, lpos := (r.Record*rs+r.Block)*512, (r.LastRecord*rs+r.LastBlock)*512
+		if _, ok := starts[pos]; !ok && r.Deleted == 0 {
+			return fmt.Sprintf("index row %q has position (%d,%d) = byte %d, which is not the start of a record on the tape", r.Name, r.Record, r.Block, pos)
+		}
+		if _, ok := starts[lpos]; !ok {
+			return fmt.Sprintf("index row %q has last-known position (%d,%d) = byte %d, which is not the start of a record on the tape", r.Name, r.LastRecord, r.LastBlock, lpos)
+		}
+	}
+	return ""
 }
